@@ -3,6 +3,7 @@ import os, re, subprocess
 import nvlib
 import gen_image as G
 import fileio_spec as S
+from props import elf_mut
 
 ID = "C03"
 LEAN_MODULES = ["NakenVerif.Props.C03"]
@@ -541,6 +542,33 @@ def correspondence(ctx, corr):
         if a != b:
             corr["disagreements"].append({"line": l[:3000], "impl": a[:3000], "model": b[:3000]})
     corr["streams"]["rd"] = {"lines": len(rl), "by_format_and_status": rk}
+    # --- read_elf: the real files and field-aware mutants (header, section header table, symbol table, truncation).
+    # The model runs first: a file with a loaded section / symbol table above 1 MiB is outside the model (the real loops
+    # `for (i = 0; i < sh_size; i++)` then run for minutes or for ever: robustness is C17's subject) and is not fed to the code.
+    el = []
+    for i in sel:
+        fmt, img = cases[i]
+        if fmt != "elf":
+            continue
+        w = G.parse_wr(impl[i])
+        if w is None or len(w["file"]) > 70000:
+            continue
+        el.append("rd elf elf %s" % nvlib.hexs(w["file"]))
+        if len(w["file"]) < 20000:
+            for m in elf_mut.mutants(rng, w["file"], 2):
+                el.append("rd elf elf %s" % nvlib.hexs(m))
+    em = nvlib.run_lines(exe, el, env=dict(os.environ), timeout=600)
+    keep = [k for k, a in enumerate(em) if a != "skip-large"]
+    ei = nvlib.run_lines(ctx.harness, [el[k] for k in keep], timeout=120)
+    ek = {}
+    for k, a in zip(keep, ei):
+        corr["cases"] += 1
+        st = a.split(" ")[0]
+        ek[st] = ek.get(st, 0) + 1
+        if a != em[k]:
+            corr["disagreements"].append({"line": el[k][:3000], "impl": a[:3000], "model": em[k][:3000]})
+    corr["streams"]["rd-elf"] = {"lines": len(el), "outside_model_large_section": len(el) - len(keep), "by_status": ek}
+    rl = rl + [el[k] for k in keep]
     corr["distinct_nontrivial"] = len(set(l for l in wl if ";" in l)) + len(set(rl))
     corr["samples"] = [{"line": wl[i][:200], "impl": wi[i][:200], "model": wm[i][:200]} for i in range(0, len(wl), max(1, len(wl) // 4))][:4]
 
